@@ -38,6 +38,7 @@ from .._dns import (
     DNSText,
 )
 from .._exceptions import BadTypeInNameException
+from .._handlers.answers import _name_is_encodable
 from .._history import QuestionHistory
 from .._logger import log
 from .._protocol.outgoing import DNSOutgoing
@@ -877,6 +878,12 @@ class ServiceInfo(RecordUpdateListener):
         skip_if_known_answers: bool,
     ) -> None:
         """Add a question with known answers if its not suppressed."""
+        if not _name_is_encodable(name):
+            # A host name learned from an SRV record with invalid UTF-8 is decoded
+            # with replacement characters and can be too long to be written again:
+            # it cannot be asked about (writing it would raise NamePartTooLongException
+            # out of the request)
+            return
         known_answers = {
             answer for answer in cache.get_all_by_details(name, type_, class_) if not answer.is_stale(now)
         }
